@@ -1,26 +1,83 @@
 #![allow(unused, non_snake_case, non_upper_case_globals)]
 use vstd::prelude::*;
 verus! {
-// ---- std integer methods without a vstd spec (trusted; each is the documented std behaviour) ----
-pub assume_specification[ i64::signum ](x: i64) -> (r: i64)
-    ensures r == (if x > 0 { 1int } else if x < 0 { -1int } else { 0int });
-pub assume_specification[ i32::signum ](x: i32) -> (r: i32)
-    ensures r == (if x > 0 { 1int } else if x < 0 { -1int } else { 0int });
-pub assume_specification[ i64::checked_neg ](x: i64) -> (r: Option<i64>)
-    ensures x == i64::MIN ==> r.is_none(), x != i64::MIN ==> r == Some((-x) as i64);
-pub assume_specification[ i64::abs ](x: i64) -> (r: i64)
-    requires x != i64::MIN,
-    ensures r == (if x < 0 { -x } else { x as int });
-pub assume_specification[ i32::abs ](x: i32) -> (r: i32)
-    requires x != i32::MIN,
-    ensures r == (if x < 0 { -x } else { x as int });
-pub assume_specification[ i64::is_positive ](x: i64) -> (r: bool) ensures r == (x > 0);
+// ---- include lib/stdspecs.vrs ----
+// Specifications of core integer methods that vstd 0.2026.09.13 does not provide (trusted; each mirrors the std documentation).
+// Included by every unit so that an edited body that starts using one of them is still decided.
+pub assume_specification[ i8::div_euclid ](x: i8, y: i8) -> (r: i8) requires y != 0, !(x == i8::MIN && y == -1), ensures y > 0 ==> r as int == (x as int) / (y as int);
+pub assume_specification[ i8::rem_euclid ](x: i8, y: i8) -> (r: i8) requires y != 0, !(x == i8::MIN && y == -1), ensures y > 0 ==> r as int == (x as int) % (y as int), y < 0 ==> r as int == (x as int) % (-(y as int));
+pub assume_specification[ i8::abs ](x: i8) -> (r: i8) requires x != i8::MIN, ensures r as int == (if x < 0 { -(x as int) } else { x as int });
+pub assume_specification[ i8::signum ](x: i8) -> (r: i8) ensures r == (if x > 0 { 1int } else if x < 0 { -1int } else { 0int });
+pub assume_specification[ i8::is_positive ](x: i8) -> (r: bool) ensures r == (x > 0);
+pub assume_specification[ i8::is_negative ](x: i8) -> (r: bool) ensures r == (x < 0);
+pub assume_specification[ i8::checked_neg ](x: i8) -> (r: Option<i8>) ensures x == i8::MIN ==> r.is_none(), x != i8::MIN ==> r == Some((-x) as i8);
+pub assume_specification[ i8::saturating_add ](x: i8, y: i8) -> (r: i8) ensures i8::MIN <= x + y <= i8::MAX ==> r == x + y, x + y > i8::MAX ==> r == i8::MAX, x + y < i8::MIN ==> r == i8::MIN;
+pub assume_specification[ i8::saturating_sub ](x: i8, y: i8) -> (r: i8) ensures i8::MIN <= x - y <= i8::MAX ==> r == x - y, x - y > i8::MAX ==> r == i8::MAX, x - y < i8::MIN ==> r == i8::MIN;
+pub assume_specification[ i8::saturating_neg ](x: i8) -> (r: i8) ensures x == i8::MIN ==> r == i8::MAX, x != i8::MIN ==> r == -x;
+pub assume_specification[ i8::unsigned_abs ](x: i8) -> (r: u8) ensures r as int == (if x < 0 { -(x as int) } else { x as int });
+pub assume_specification[ i8::checked_abs ](x: i8) -> (r: Option<i8>) ensures x == i8::MIN ==> r.is_none(), x != i8::MIN ==> r == Some((if x < 0 { -x } else { x as int }) as i8);
+pub assume_specification[ i16::div_euclid ](x: i16, y: i16) -> (r: i16) requires y != 0, !(x == i16::MIN && y == -1), ensures y > 0 ==> r as int == (x as int) / (y as int);
+pub assume_specification[ i16::rem_euclid ](x: i16, y: i16) -> (r: i16) requires y != 0, !(x == i16::MIN && y == -1), ensures y > 0 ==> r as int == (x as int) % (y as int), y < 0 ==> r as int == (x as int) % (-(y as int));
+pub assume_specification[ i16::abs ](x: i16) -> (r: i16) requires x != i16::MIN, ensures r as int == (if x < 0 { -(x as int) } else { x as int });
+pub assume_specification[ i16::signum ](x: i16) -> (r: i16) ensures r == (if x > 0 { 1int } else if x < 0 { -1int } else { 0int });
+pub assume_specification[ i16::is_positive ](x: i16) -> (r: bool) ensures r == (x > 0);
+pub assume_specification[ i16::is_negative ](x: i16) -> (r: bool) ensures r == (x < 0);
+pub assume_specification[ i16::checked_neg ](x: i16) -> (r: Option<i16>) ensures x == i16::MIN ==> r.is_none(), x != i16::MIN ==> r == Some((-x) as i16);
+pub assume_specification[ i16::saturating_add ](x: i16, y: i16) -> (r: i16) ensures i16::MIN <= x + y <= i16::MAX ==> r == x + y, x + y > i16::MAX ==> r == i16::MAX, x + y < i16::MIN ==> r == i16::MIN;
+pub assume_specification[ i16::saturating_sub ](x: i16, y: i16) -> (r: i16) ensures i16::MIN <= x - y <= i16::MAX ==> r == x - y, x - y > i16::MAX ==> r == i16::MAX, x - y < i16::MIN ==> r == i16::MIN;
+pub assume_specification[ i16::saturating_neg ](x: i16) -> (r: i16) ensures x == i16::MIN ==> r == i16::MAX, x != i16::MIN ==> r == -x;
+pub assume_specification[ i16::unsigned_abs ](x: i16) -> (r: u16) ensures r as int == (if x < 0 { -(x as int) } else { x as int });
+pub assume_specification[ i16::checked_abs ](x: i16) -> (r: Option<i16>) ensures x == i16::MIN ==> r.is_none(), x != i16::MIN ==> r == Some((if x < 0 { -x } else { x as int }) as i16);
+pub assume_specification[ i32::div_euclid ](x: i32, y: i32) -> (r: i32) requires y != 0, !(x == i32::MIN && y == -1), ensures y > 0 ==> r as int == (x as int) / (y as int);
+pub assume_specification[ i32::rem_euclid ](x: i32, y: i32) -> (r: i32) requires y != 0, !(x == i32::MIN && y == -1), ensures y > 0 ==> r as int == (x as int) % (y as int), y < 0 ==> r as int == (x as int) % (-(y as int));
+pub assume_specification[ i32::abs ](x: i32) -> (r: i32) requires x != i32::MIN, ensures r as int == (if x < 0 { -(x as int) } else { x as int });
+pub assume_specification[ i32::signum ](x: i32) -> (r: i32) ensures r == (if x > 0 { 1int } else if x < 0 { -1int } else { 0int });
 pub assume_specification[ i32::is_positive ](x: i32) -> (r: bool) ensures r == (x > 0);
-pub assume_specification[ i64::is_negative ](x: i64) -> (r: bool) ensures r == (x < 0);
 pub assume_specification[ i32::is_negative ](x: i32) -> (r: bool) ensures r == (x < 0);
+pub assume_specification[ i32::checked_neg ](x: i32) -> (r: Option<i32>) ensures x == i32::MIN ==> r.is_none(), x != i32::MIN ==> r == Some((-x) as i32);
+pub assume_specification[ i32::saturating_add ](x: i32, y: i32) -> (r: i32) ensures i32::MIN <= x + y <= i32::MAX ==> r == x + y, x + y > i32::MAX ==> r == i32::MAX, x + y < i32::MIN ==> r == i32::MIN;
+pub assume_specification[ i32::saturating_sub ](x: i32, y: i32) -> (r: i32) ensures i32::MIN <= x - y <= i32::MAX ==> r == x - y, x - y > i32::MAX ==> r == i32::MAX, x - y < i32::MIN ==> r == i32::MIN;
+pub assume_specification[ i32::saturating_neg ](x: i32) -> (r: i32) ensures x == i32::MIN ==> r == i32::MAX, x != i32::MIN ==> r == -x;
+pub assume_specification[ i32::unsigned_abs ](x: i32) -> (r: u32) ensures r as int == (if x < 0 { -(x as int) } else { x as int });
+pub assume_specification[ i32::checked_abs ](x: i32) -> (r: Option<i32>) ensures x == i32::MIN ==> r.is_none(), x != i32::MIN ==> r == Some((if x < 0 { -x } else { x as int }) as i32);
+pub assume_specification[ i64::div_euclid ](x: i64, y: i64) -> (r: i64) requires y != 0, !(x == i64::MIN && y == -1), ensures y > 0 ==> r as int == (x as int) / (y as int);
+pub assume_specification[ i64::rem_euclid ](x: i64, y: i64) -> (r: i64) requires y != 0, !(x == i64::MIN && y == -1), ensures y > 0 ==> r as int == (x as int) % (y as int), y < 0 ==> r as int == (x as int) % (-(y as int));
+pub assume_specification[ i64::abs ](x: i64) -> (r: i64) requires x != i64::MIN, ensures r as int == (if x < 0 { -(x as int) } else { x as int });
+pub assume_specification[ i64::signum ](x: i64) -> (r: i64) ensures r == (if x > 0 { 1int } else if x < 0 { -1int } else { 0int });
+pub assume_specification[ i64::is_positive ](x: i64) -> (r: bool) ensures r == (x > 0);
+pub assume_specification[ i64::is_negative ](x: i64) -> (r: bool) ensures r == (x < 0);
+pub assume_specification[ i64::checked_neg ](x: i64) -> (r: Option<i64>) ensures x == i64::MIN ==> r.is_none(), x != i64::MIN ==> r == Some((-x) as i64);
+pub assume_specification[ i64::saturating_add ](x: i64, y: i64) -> (r: i64) ensures i64::MIN <= x + y <= i64::MAX ==> r == x + y, x + y > i64::MAX ==> r == i64::MAX, x + y < i64::MIN ==> r == i64::MIN;
+pub assume_specification[ i64::saturating_sub ](x: i64, y: i64) -> (r: i64) ensures i64::MIN <= x - y <= i64::MAX ==> r == x - y, x - y > i64::MAX ==> r == i64::MAX, x - y < i64::MIN ==> r == i64::MIN;
+pub assume_specification[ i64::saturating_neg ](x: i64) -> (r: i64) ensures x == i64::MIN ==> r == i64::MAX, x != i64::MIN ==> r == -x;
+pub assume_specification[ i64::unsigned_abs ](x: i64) -> (r: u64) ensures r as int == (if x < 0 { -(x as int) } else { x as int });
+pub assume_specification[ i64::checked_abs ](x: i64) -> (r: Option<i64>) ensures x == i64::MIN ==> r.is_none(), x != i64::MIN ==> r == Some((if x < 0 { -x } else { x as int }) as i64);
+pub assume_specification[ i128::div_euclid ](x: i128, y: i128) -> (r: i128) requires y != 0, !(x == i128::MIN && y == -1), ensures y > 0 ==> r as int == (x as int) / (y as int);
+pub assume_specification[ i128::rem_euclid ](x: i128, y: i128) -> (r: i128) requires y != 0, !(x == i128::MIN && y == -1), ensures y > 0 ==> r as int == (x as int) % (y as int), y < 0 ==> r as int == (x as int) % (-(y as int));
+pub assume_specification[ i128::abs ](x: i128) -> (r: i128) requires x != i128::MIN, ensures r as int == (if x < 0 { -(x as int) } else { x as int });
+pub assume_specification[ i128::signum ](x: i128) -> (r: i128) ensures r == (if x > 0 { 1int } else if x < 0 { -1int } else { 0int });
+pub assume_specification[ i128::is_positive ](x: i128) -> (r: bool) ensures r == (x > 0);
+pub assume_specification[ i128::is_negative ](x: i128) -> (r: bool) ensures r == (x < 0);
+pub assume_specification[ i128::checked_neg ](x: i128) -> (r: Option<i128>) ensures x == i128::MIN ==> r.is_none(), x != i128::MIN ==> r == Some((-x) as i128);
+pub assume_specification[ i128::saturating_add ](x: i128, y: i128) -> (r: i128) ensures i128::MIN <= x + y <= i128::MAX ==> r == x + y, x + y > i128::MAX ==> r == i128::MAX, x + y < i128::MIN ==> r == i128::MIN;
+pub assume_specification[ i128::saturating_sub ](x: i128, y: i128) -> (r: i128) ensures i128::MIN <= x - y <= i128::MAX ==> r == x - y, x - y > i128::MAX ==> r == i128::MAX, x - y < i128::MIN ==> r == i128::MIN;
+pub assume_specification[ i128::saturating_neg ](x: i128) -> (r: i128) ensures x == i128::MIN ==> r == i128::MAX, x != i128::MIN ==> r == -x;
+pub assume_specification[ i128::unsigned_abs ](x: i128) -> (r: u128) ensures r as int == (if x < 0 { -(x as int) } else { x as int });
+pub assume_specification[ i128::checked_abs ](x: i128) -> (r: Option<i128>) ensures x == i128::MIN ==> r.is_none(), x != i128::MIN ==> r == Some((if x < 0 { -x } else { x as int }) as i128);
 
-pub assume_specification[ i64::unsigned_abs ](x: i64) -> (r: u64) ensures r == (if x < 0 { -x } else { x as int });
-pub assume_specification[ i32::unsigned_abs ](x: i32) -> (r: u32) ensures r == (if x < 0 { -x } else { x as int });
+// ---- std integer methods without a vstd spec (trusted; each is the documented std behaviour) ----
+// (std spec moved to lib/stdspecs.vrs: i64::signum)
+// (std spec moved to lib/stdspecs.vrs: i32::signum)
+// (std spec moved to lib/stdspecs.vrs: i64::checked_neg)
+// (std spec moved to lib/stdspecs.vrs: i64::abs)
+// (std spec moved to lib/stdspecs.vrs: i32::abs)
+// (std spec moved to lib/stdspecs.vrs: i64::is_positive)
+// (std spec moved to lib/stdspecs.vrs: i32::is_positive)
+// (std spec moved to lib/stdspecs.vrs: i64::is_negative)
+// (std spec moved to lib/stdspecs.vrs: i32::is_negative)
+
+// (std spec moved to lib/stdspecs.vrs: i64::unsigned_abs)
+// (std spec moved to lib/stdspecs.vrs: i32::unsigned_abs)
 // std::time::Duration is opaque here: only its denoted nanosecond count is modelled (trusted view of std)
 use core::time::Duration;
 pub uninterp spec fn dur_ns(d: Duration) -> int;
@@ -285,6 +342,7 @@ impl SignedDuration { pub const MAX: SignedDuration =
 
 impl SignedDuration {
 // @fn SignedDuration::new @src src/signed_duration.rs:395
+#[verifier::spinoff_prover]
 
     pub const fn new(mut secs: i64, mut nanos: i32) -> (r: SignedDuration)
     requires
@@ -342,6 +400,7 @@ impl SignedDuration {
 
 impl SignedDuration {
 // @fn SignedDuration::new_without_nano_overflow @src src/signed_duration.rs:453
+#[verifier::spinoff_prover]
 
     pub const fn new_without_nano_overflow(
         secs: i64,
@@ -360,6 +419,7 @@ impl SignedDuration {
 
 impl SignedDuration {
 // @fn SignedDuration::new_unchecked @src src/signed_duration.rs:474
+#[verifier::spinoff_prover]
 
     pub const fn new_unchecked(secs: i64, nanos: i32) -> (r: SignedDuration)
     requires
@@ -375,6 +435,7 @@ impl SignedDuration {
 
 impl SignedDuration {
 // @fn SignedDuration::from_secs @src src/signed_duration.rs:492
+#[verifier::spinoff_prover]
 
     pub const fn from_secs(secs: i64) -> (r: SignedDuration)
     ensures
@@ -386,6 +447,7 @@ impl SignedDuration {
 
 impl SignedDuration {
 // @fn SignedDuration::from_millis @src src/signed_duration.rs:518
+#[verifier::spinoff_prover]
 
     pub const fn from_millis(millis: i64) -> (r: SignedDuration)
     ensures
@@ -403,6 +465,7 @@ impl SignedDuration {
 
 impl SignedDuration {
 // @fn SignedDuration::from_micros @src src/signed_duration.rs:550
+#[verifier::spinoff_prover]
 
     pub const fn from_micros(micros: i64) -> (r: SignedDuration)
     ensures
@@ -420,6 +483,7 @@ impl SignedDuration {
 
 impl SignedDuration {
 // @fn SignedDuration::from_nanos @src src/signed_duration.rs:582
+#[verifier::spinoff_prover]
 
     pub const fn from_nanos(nanos: i64) -> (r: SignedDuration)
     ensures
@@ -435,6 +499,7 @@ impl SignedDuration {
 
 impl SignedDuration {
 // @fn SignedDuration::from_hours @src src/signed_duration.rs:612
+#[verifier::spinoff_prover]
 
     pub const fn from_hours(hours: i64) -> (r: SignedDuration)
     requires
@@ -460,6 +525,7 @@ impl SignedDuration {
 
 impl SignedDuration {
 // @fn SignedDuration::from_mins @src src/signed_duration.rs:650
+#[verifier::spinoff_prover]
 
     pub const fn from_mins(minutes: i64) -> (r: SignedDuration)
     requires
@@ -485,6 +551,7 @@ impl SignedDuration {
 
 impl SignedDuration {
 // @fn SignedDuration::is_zero @src src/signed_duration.rs:700
+#[verifier::spinoff_prover]
 
     pub const fn is_zero(&self) -> (r: bool)
     requires
@@ -498,6 +565,7 @@ impl SignedDuration {
 
 impl SignedDuration {
 // @fn SignedDuration::as_secs @src src/signed_duration.rs:724
+#[verifier::spinoff_prover]
 
     pub const fn as_secs(&self) -> (r: i64)
     requires
@@ -513,6 +581,7 @@ impl SignedDuration {
 
 impl SignedDuration {
 // @fn SignedDuration::subsec_millis @src src/signed_duration.rs:749
+#[verifier::spinoff_prover]
 
     pub const fn subsec_millis(&self) -> (r: i32)
     requires
@@ -529,6 +598,7 @@ impl SignedDuration {
 
 impl SignedDuration {
 // @fn SignedDuration::subsec_micros @src src/signed_duration.rs:775
+#[verifier::spinoff_prover]
 
     pub const fn subsec_micros(&self) -> (r: i32)
     requires
@@ -545,6 +615,7 @@ impl SignedDuration {
 
 impl SignedDuration {
 // @fn SignedDuration::subsec_nanos @src src/signed_duration.rs:801
+#[verifier::spinoff_prover]
 
     pub const fn subsec_nanos(&self) -> (r: i32)
     requires
@@ -560,6 +631,7 @@ impl SignedDuration {
 
 impl SignedDuration {
 // @fn SignedDuration::as_millis @src src/signed_duration.rs:824
+#[verifier::spinoff_prover]
 
     pub const fn as_millis(&self) -> (r: i128)
     requires
@@ -581,6 +653,7 @@ impl SignedDuration {
 
 impl SignedDuration {
 // @fn SignedDuration::as_micros @src src/signed_duration.rs:853
+#[verifier::spinoff_prover]
 
     pub const fn as_micros(&self) -> (r: i128)
     requires
@@ -602,6 +675,7 @@ impl SignedDuration {
 
 impl SignedDuration {
 // @fn SignedDuration::as_nanos @src src/signed_duration.rs:882
+#[verifier::spinoff_prover]
 
     pub const fn as_nanos(&self) -> (r: i128)
     requires
@@ -621,6 +695,7 @@ impl SignedDuration {
 
 impl SignedDuration {
 // @fn SignedDuration::checked_add @src src/signed_duration.rs:916
+#[verifier::spinoff_prover]
 
     pub const fn checked_add(
         self,
@@ -691,6 +766,7 @@ impl SignedDuration {
 
 impl SignedDuration {
 // @fn SignedDuration::saturating_add @src src/signed_duration.rs:990
+#[verifier::spinoff_prover]
 
     pub const fn saturating_add(self, rhs: SignedDuration) -> (r: SignedDuration)
     requires
@@ -713,6 +789,7 @@ impl SignedDuration {
 
 impl SignedDuration {
 // @fn SignedDuration::checked_sub @src src/signed_duration.rs:1021
+#[verifier::spinoff_prover]
 
     pub const fn checked_sub(
         self,
@@ -745,6 +822,7 @@ impl SignedDuration {
 
 impl SignedDuration {
 // @fn SignedDuration::saturating_sub @src src/signed_duration.rs:1057
+#[verifier::spinoff_prover]
 
     pub const fn saturating_sub(self, rhs: SignedDuration) -> (r: SignedDuration)
     requires
@@ -767,6 +845,7 @@ impl SignedDuration {
 
 impl SignedDuration {
 // @fn SignedDuration::checked_mul @src src/signed_duration.rs:1083
+#[verifier::spinoff_prover]
 
     pub const fn checked_mul(self, rhs: i32) -> (r: Option<SignedDuration>)
     requires
@@ -793,6 +872,7 @@ impl SignedDuration {
 
 impl SignedDuration {
 // @fn SignedDuration::saturating_mul @src src/signed_duration.rs:1114
+#[verifier::spinoff_prover]
 
     pub const fn saturating_mul(self, rhs: i32) -> (r: SignedDuration)
     requires
@@ -824,6 +904,7 @@ impl SignedDuration {
 
 impl SignedDuration {
 // @fn SignedDuration::checked_div @src src/signed_duration.rs:1155
+#[verifier::spinoff_prover]
 
     pub const fn checked_div(self, rhs: i32) -> (r: Option<SignedDuration>)
     requires
@@ -870,6 +951,7 @@ impl SignedDuration {
 
 impl SignedDuration {
 // @fn SignedDuration::as_hours @src src/signed_duration.rs:1657
+#[verifier::spinoff_prover]
 
     pub const fn as_hours(&self) -> (r: i64)
     requires
@@ -883,6 +965,7 @@ impl SignedDuration {
 
 impl SignedDuration {
 // @fn SignedDuration::as_mins @src src/signed_duration.rs:1680
+#[verifier::spinoff_prover]
 
     pub const fn as_mins(&self) -> (r: i64)
     requires
@@ -896,6 +979,7 @@ impl SignedDuration {
 
 impl SignedDuration {
 // @fn SignedDuration::abs @src src/signed_duration.rs:1703
+#[verifier::spinoff_prover]
 
     pub const fn abs(self) -> (r: SignedDuration)
     requires
@@ -909,6 +993,7 @@ impl SignedDuration {
 
 impl SignedDuration {
 // @fn SignedDuration::unsigned_abs @src src/signed_duration.rs:1726
+#[verifier::spinoff_prover]
 
     pub const fn unsigned_abs(self) -> (r: Duration)
     requires
@@ -922,6 +1007,7 @@ impl SignedDuration {
 
 impl SignedDuration {
 // @fn SignedDuration::checked_neg @src src/signed_duration.rs:1759
+#[verifier::spinoff_prover]
 
     pub const fn checked_neg(self) -> (r: Option<SignedDuration>)
     requires
@@ -944,6 +1030,7 @@ impl SignedDuration {
 
 impl SignedDuration {
 // @fn SignedDuration::signum @src src/signed_duration.rs:1784
+#[verifier::spinoff_prover]
 
     pub const fn signum(self) -> (r: i8)
     requires
@@ -964,6 +1051,7 @@ impl SignedDuration {
 
 impl SignedDuration {
 // @fn SignedDuration::is_positive @src src/signed_duration.rs:1807
+#[verifier::spinoff_prover]
 
     pub const fn is_positive(&self) -> (r: bool)
     requires
@@ -977,6 +1065,7 @@ impl SignedDuration {
 
 impl SignedDuration {
 // @fn SignedDuration::is_negative @src src/signed_duration.rs:1823
+#[verifier::spinoff_prover]
 
     pub const fn is_negative(&self) -> (r: bool)
     requires
